@@ -88,10 +88,20 @@ class FdrSuite(Suite):
                    "scores": case["scores"][:i] + case["scores"][i + 1:]}
 
 
-def row_to_json(r):
+def row_to_json(r, q_maxden=None):
+    """q_maxden: recover the q-value as the unique fraction with that denominator bound rounding to the float"""
+    if q_maxden is not None:
+        f = gens.small_fraction_of(float(r.qValue), q_maxden)
+        q = f"{f.numerator}/{f.denominator}" if f is not None else "-1/1"
+    else:
+        q = gens.fr(r.qValue)
+    return _row_to_json(r, q)
+
+
+def _row_to_json(r, q):
     counts = [int(x) for x in r.peptideCountsUnique.split(";")] if r.peptideCountsUnique != "" else []
     return {"ids": r.proteinIds, "maj": r.majorityProteinIds, "counts": counts, "best": r.bestPeptide,
-            "n": int(r.numberOfProteins), "q": gens.fr(r.qValue), "score": gens.fr(r.score),
+            "n": int(r.numberOfProteins), "q": q, "score": gens.fr(r.score),
             "rev": r.reverse == "+", "con": r.potentialContaminant == "+"}
 
 
